@@ -47,6 +47,9 @@ RUNS = {
         {"name": "K4-args-and-read-data", "mode": "k4", "budget": (3000, 60000), "nontrivial": r" c\d+=|^rtyp=117", "keyfn": "k4"},
         {"name": "K4-read-buffer-reuse", "mode": "k13", "budget": (60, 1500), "nontrivial": r"^rtyp=(117|41) ", "keyfn": "k4"},
     ],
+    "C19": [
+        {"name": "K8-readdir", "mode": "k19", "budget": (250, 6000), "nontrivial": r"pages=([3-9]|\d\d)", "keyfn": "generic"},
+    ],
     "C02": [
         {"name": "K2-framing", "mode": "k2", "budget": (1500, 40000), "nontrivial": r"recv\d+=(msg|proto)", "keyfn": "k2"},
     ],
@@ -55,6 +58,22 @@ RUNS = {
 NOT_YET = {}
 
 PROPS = {
+    "C19": {
+        "level_text": "Proof: all three file systems number entries 1,2,... in a fixed order and return entries offset+1..offset+count; the paging loop "
+                      "(next offset = Offset of the last entry) composed with the server's cut to whole entries within min(count, msize-11) bytes is "
+                      "modelled (Fsimpl/Readdir.lean) and proved to return exactly the directory's entries, each once and in order, for every "
+                      "directory, count >= 1 and msize as long as one entry fits - by induction over the pages; resuming from any offset returns the "
+                      "rest; every page is within the byte limit. QID/type agreement with Walk and GetAttr is decided on the real file systems by K8.",
+        "level_note": "Trusted: Lean kernel; the model of the three Readdir implementations as one window function (localfs after the D5 fix) is "
+                      "hand-written and tied by K8-readdir: real temp directories through localfs, staticfs and composefs (files, mounts, nested dirs), "
+                      "directly and through a real client + server over a socketpair; multiset of names vs. ground truth, number of Readdir calls vs. "
+                      "the model's, each entry's QID and type vs. Walk and GetAttr. Assumes the OS lists an unmodified directory in a stable order.",
+        "rule": "k19: fs in {localfs x2, staticfs, composefs}, 0..120 entries (400/1500 in thorough), name lengths 1..255, direct counts "
+                "{1,2,3,7,50,1000} entries, server counts from exactly one (largest) entry up to beyond msize, msize {4096,8192,65536}. Non-trivial: "
+                "at least 3 Readdir calls were needed.",
+        "assumptions": ["stable directory order for an unmodified directory", "one entry fits in min(count, msize-11)"],
+        "trusted_base": ["Fsimpl/Readdir.lean"],
+    },
     "C18": {
         "level_text": "Proof: decoding into a recycled object is modelled explicitly (decInto: scalar fields assigned, slice fields appended to unless "
                       "reset); with every slice reset it equals decoding into a fresh object whatever the object held (induction over the layout), and "
